@@ -78,7 +78,7 @@ def check(ctx):
         "R3",
         "os.remove/os.unlink in the rewriting operations touch only the temp name (the final "
         "name is never removed on a failure path)",
-        floor=2,
+        floor=1,
     )
     ctx.rule(
         "R4",
@@ -237,7 +237,7 @@ def check(ctx):
                     where=loc(c),
                 )
                 continue
-            if nm in ("os.remove", "os.unlink") and q in LISTED:
+            if nm in ("os.remove", "os.unlink") and (q in LISTED or only_called_from(ctx.repo, mod, q, set(LISTED))):
                 a0 = c.args[0] if c.args else None
                 mk = _mkstemp_unpack(defs, a0.id) if isinstance(a0, ast.Name) else None
                 ctx.ob(
@@ -269,7 +269,7 @@ def check(ctx):
                         where=loc(c),
                     )
     for q in ("JsonHistoryFlusher.dump", "JsonHistory.delete", "JsonHistory.erasedups"):
-        fn = mod.func(q)
+        fn = flat(ctx, mod.func(q), depth=2)  # helper-transparent: an extracted atomic-write helper counts
         has = any(call_name(c) == "os.replace" for c in calls_in(fn))
         ctx.ob("R2", f"{JSON}:{q}", "the operation publishes its result with os.replace", has, key=f"{q}|no-replace")
     # R3 floor helper: GC's deliberate removal is outside LISTED functions (JsonHistoryGC.run)
@@ -288,6 +288,13 @@ def check(ctx):
         for ws in w:
             for it in ws.items:
                 e = df.resolve_copy(gdefs, it.context_expr)
+                if isinstance(it.context_expr, ast.Name) and not (isinstance(e, ast.Call)):
+                    # bound by an enclosing `with <expr> as conn`
+                    for d_ in gdefs.get(it.context_expr.id, []):
+                        if d_.kind == "with" and d_.value is not None:
+                            e = d_.value
+                if isinstance(e, ast.Call) and (call_name(e) or "").endswith("closing") and e.args:
+                    e = e.args[0]  # contextlib.closing(x) yields x itself
                 if isinstance(e, ast.Call) and (call_name(e) or "").endswith("sqlite3.connect"):
                     good = True
         ok_shape = ok_shape and good
